@@ -442,6 +442,34 @@ def run(shard, ctx):
                 elif st == "ok":
                     b.remove_last_entry()
             ctx.case(("edge-meter", m))
+        # bars with several beats that are each shorter than that thousandth: every beat still fits ('+' places one beat unit;
+        # being reported full - the remaining length is under 1/1000 from the first beat on - does not mean nothing fits)
+        for m in [(2, 1024), (3, 1024), (3, 2048), (4, 2048), (7, 4096), (5, 8192), (2, 2 ** 16)]:
+            st, b = ctx.call(Bar, "C", m)
+            if st != "ok":
+                continue
+            for how in ("+", "place_notes", "place_rest"):
+                b.empty()
+                trail = []
+                for k in range(m[0] + 2):
+                    fits = k < m[0]
+                    before = snapshot(b)
+                    if how == "+":
+                        st, r = ctx.call(lambda: b + "C")
+                    elif how == "place_notes":
+                        st, r = ctx.call(b.place_notes, "D", m[1])
+                    else:
+                        st, r = ctx.call(b.place_rest, m[1])
+                    trail.append(how)
+                    w = {"meter": list(m), "history": list(trail)}
+                    ctx.check("accept: accepted exactly when the exact total does not exceed the bar length", st == "ok" and bool(r) == fits, w, fits,
+                              repr(r), mechanism="accept:%s" % ("refused-but-fits" if fits else "accepted-but-overflows"), shape={"exact_fill": k == m[0] - 1})
+                    if st == "ok" and r:
+                        ctx.check("beats: the current beat is the total length", abs(b.current_beat - (k + 1) / m[1]) <= 1e-15 and len(b) == k + 1, w,
+                                  (k + 1) / m[1], [b.current_beat, len(b)], mechanism="short-beats")
+                    elif st == "ok":
+                        ctx.check("accept: a refused placement changes nothing", snapshot(b) == before, w, before, snapshot(b), mechanism="refused-changed")
+            ctx.case(("short-beats", m))
         ctx.sample({"Bar('C',(6,8)).length": Bar("C", (6, 8)).length, "Bar('C',(4,3))": repr(ctx.call(Bar, "C", (4, 3))[1])})
     elif kind == "repotests":
         from rv import repotests
